@@ -2195,6 +2195,10 @@ for _k, _v in py2lean_image.FILES.items():
     FILES[_k] = _v[:5]
     IMAGE_KEYS.add(_k)
 
+# the mGH entry-point engine (gromov_hausdorff, make_distance_matrix_from_adjacency_matrix, the int-type cast; key "ghentry")
+# registers itself like the mGH engine (py2lean_ghentry.register)
+from . import py2lean_ghentry  # noqa: E402,F401
+
 
 if __name__ == "__main__":
     import sys
